@@ -54,6 +54,38 @@ IntArgs == {I(0), I(1), I(-1), I(5), I(-5), I(12), I(-123), I(255), I(4096), I(6
             <<"q", 5, -1>>, <<"q", -5, -1>>, <<"q", 1, -1>>}
 UIntArgs == {I(0), I(1), I(7), I(8), I(12), I(255), I(4096), I(65535), <<"q", 5, -1>>}
 
+(* the format grid: every flag subset x width x precision x conversion x argument *)
+GWidths == {<<>>, <<49>>, <<56>>, <<49, 50>>}                      \* none 1 8 12
+GPrecs == {<<>>, <<46, 48>>, <<46, 50>>, <<46, 49, 48>>}           \* none .0 .2 .10
+AllFlags == {45, 43, 32, 35, 48}
+GFlagsOf(conv) ==                       \* the flags ISO C defines for the conversion
+    CASE conv \in {100, 105} -> {45, 43, 32, 48}                 \* d i
+      [] conv = 117 -> {45, 43, 32, 48}                           \* u
+      [] conv \in {111, 120, 88, 101, 69, 102, 103, 71} -> AllFlags
+      [] conv \in {99, 115} -> {45}                               \* c s
+      [] OTHER -> {}                                              \* q
+GPrecsOf(conv) == IF conv \in {99, 113} THEN {<<>>} ELSE GPrecs
+GWidthsOf(conv) == IF conv = 113 THEN {<<>>} ELSE GWidths
+FloatArgs == {I(0), I(1), I(100), <<"q", -3, -1>>, <<"q", 5, -1>>, <<"q", 1, -1>>, <<"q", 25, -1>>, <<"q", 1, -4>>,
+              <<"q", 1, -14>>, <<"q", 2469135, -1>>, <<"q", 1999999, -1>>, <<"q", 3, 40>>, I(-1073741823),
+              Inf(1), Inf(-1)}
+GArgsOf(conv) ==
+    CASE conv \in {100, 105} -> {I(0), I(7), I(-7), I(1234567), I(-1073741823), <<"q", 5, -1>>, <<"q", -15, -2>>}
+      [] conv \in {117, 111, 120, 88} -> {I(0), I(7), I(1234567), I(1073741823), <<"q", 5, -1>>}
+      [] conv \in {101, 69, 102, 103, 71} -> FloatArgs
+      [] conv = 99 -> {I(65), I(233), I(1)}
+      [] OTHER -> {S(<<>>), S(<<97>>), S(<<97, 98, 99, 100>>), S(<<195, 169, 34, 92, 10>>), I(42), <<"q", -5, -2>>}
+GridConvs == {100, 105, 117, 111, 120, 88, 101, 69, 102, 103, 71, 99, 115, 113}
+
+(* ldexp / frexp over the whole exponent range of a double *)
+WideMants == {1, -1, 3, 5, -7, 255, 1048575}
+WideExps == {0, 1, 52, 500, 970, 1003, 1020, 1022, 1023}
+WideNeg == {1, 30, 500, 1000, 1021, 1022, 1023, 1030, 1050, 1060, 1070, 1072, 1073, 1074}
+WideVals == {t \in {Tok([m |-> m, e |-> e]) : m \in WideMants, e \in WideExps}
+                    \cup {Tok([m |-> m, e |-> -e]) : m \in WideMants, e \in WideNeg} : Representable(t)}
+WideShifts == {0, 1, 52, 53, 1020, 1022, 1023, 1024, 1025, 1050, 1073, 1074, 1075, 1076, 1100, 1500, 2000, 2046,
+               2097, 2098, 2099, 2200}
+
 GroupsOf(Fam) ==
     CASE Fam \in {"sub", "byte"} -> Strs(AlphaIdx, LenIdx)
       [] Fam = "unary" -> Strs(AlphaIdx, LenIdx) \cup ExtraStrs
@@ -68,6 +100,8 @@ GroupsOf(Fam) ==
       [] Fam = "math1" -> Grid1
       [] Fam = "math2" -> Grid2 \X Grid2
       [] Fam = "maxmin" -> SmallGrid \X SmallGrid
+      [] Fam = "fmtgrid" -> UNION {{<<c, a>> : a \in GArgsOf(c)} : c \in GridConvs}
+      [] Fam = "ldexpw" -> WideVals
 
 
 Call(f, args) == <<f, args>>
@@ -112,6 +146,13 @@ CasesOf(Fam, g) ==
            \cup {Call("max", <<g>>), Call("min", <<g>>)}
       [] Fam = "math2" ->
            {Call(f, <<g[1], g[2]>>) : f \in {"fmod", "pow", "max", "min"}}
+      [] Fam = "fmtgrid" ->
+           {Call("format", <<S(Directive(fl, wd, pd, g[1])), g[2]>>) :
+                fl \in SUBSET GFlagsOf(g[1]), wd \in GWidthsOf(g[1]), pd \in GPrecsOf(g[1])}
+      [] Fam = "ldexpw" ->
+           {Call("ldexp", <<g, I(k)>>) : k \in WideShifts} \cup {Call("ldexp", <<g, I(-k)>>) : k \in WideShifts}
+           \cup {Call("frexp", <<g>>)}
+           \cup (LET fr == MFrexp(g)[2] IN {Call("ldexp", <<fr[1], fr[2]>>)})
       [] Fam = "maxmin" ->
            {Call(f, <<g[1], g[2], z>>) : f \in {"max", "min"}, z \in SmallGrid}
            \cup {Call(f, <<z, g[1], g[2]>>) : f \in {"max", "min"}, z \in SmallGrid}
